@@ -20,6 +20,13 @@
 /// but small enough to avoid too much unused memory at once.
 #define INDEX_GROUP_SIZE 512
 
+#if defined(TUKAANI_PROJECT_XZ_VERIF) && defined(VERIF_INDEX_GROUP_SIZE)
+// Verification hook: allow tiny groups so that group boundaries and
+// tree rotations are reachable with a handful of Records.
+#	undef INDEX_GROUP_SIZE
+#	define INDEX_GROUP_SIZE VERIF_INDEX_GROUP_SIZE
+#endif
+
 
 /// \brief      How many Records can be allocated at once at maximum
 #define PREALLOC_MAX ((SIZE_MAX - sizeof(index_group)) / sizeof(index_record))
